@@ -175,11 +175,42 @@ impl TimerNorm {
     }
 }
 
+struct ThreadedBridge {
+    bridge: Bridge<AppD>,
+    fresh_threads: bool,
+}
+
+impl ThreadedBridge {
+    fn on<T: Send>(&self, f: impl FnOnce(&Bridge<AppD>) -> T + Send) -> T {
+        if self.fresh_threads {
+            std::thread::scope(|s| s.spawn(|| f(&self.bridge)).join().expect("bridge call thread"))
+        } else {
+            f(&self.bridge)
+        }
+    }
+    fn process_event(&self, bytes: &[u8]) -> Result<Vec<u8>, crux_core::bridge::BridgeError> {
+        self.on(|b| b.process_event(bytes))
+    }
+    fn handle_response(&self, id: u32, bytes: &[u8]) -> Result<Vec<u8>, crux_core::bridge::BridgeError> {
+        self.on(|b| b.handle_response(id, bytes))
+    }
+    fn view(&self) -> Result<Vec<u8>, crux_core::bridge::BridgeError> {
+        self.on(|b| b.view())
+    }
+}
+
 /// One replay: every output of the bridge, serialized, in order (timer ids normalised)
 fn replay(hseed: u64) -> Result<Vec<Vec<u8>>, String> {
+    replay_on(hseed, false)
+}
+
+/// `fresh_threads`: every call into the bridge is made from a thread of its own (a shell that
+/// hands each call to a worker); the outputs may not depend on which thread called
+fn replay_on(hseed: u64, fresh_threads: bool) -> Result<Vec<Vec<u8>>, String> {
     let mut rng = Rng::new(hseed);
     *caplab::app::LAST_TIMER_ID.lock().unwrap() = None;
     let bridge: Bridge<AppD> = Bridge::new(Core::new());
+    let bridge = ThreadedBridge { bridge, fresh_threads };
     let mut norm = TimerNorm { map: HashMap::new() };
     let mut outputs: Vec<Vec<u8>> = vec![];
     let mut outstanding: Vec<(u32, Op)> = vec![];
@@ -302,8 +333,9 @@ fn main() {
         match &first {
             Ok(Ok(a)) => {
                 first_outputs = a.clone();
-                for _ in 1..replays_in_process {
-                    match vcommon::trap(|| replay(hseed)) {
+                for rep in 1..replays_in_process {
+                    // every other replay makes each call from a fresh thread
+                    match vcommon::trap(|| replay_on(hseed, rep % 2 == 1)) {
                         Ok(Ok(b)) => {
                             if let Some(i) = (0..a.len().max(b.len())).find(|i| a.get(*i) != b.get(*i)) {
                                 diffs.push((i, "in-process"));
